@@ -73,3 +73,21 @@ Proof.
   rewrite <- (empties_same_lua fl tgt fuel_tc fuel req (strip_parens a1)),
           <- (empties_same_lua fl tgt fuel_tc fuel req (strip_parens a2)), H. reflexivity.
 Qed.
+
+(* (4) arrow_same_lua: an accepted program and the program with every arrow call `x -> f(args)` written as the call
+   `f(x, args)` have the same pipeline result; a rejected one stays rejected (Resolve/ArrowProofs.v; hypotheses:
+   the three restore flags, a well-formed AST, simple callees after `->`). *)
+From Sylt Require Import Resolve.Wf Resolve.Arrow Resolve.ArrowProofs Resolve.RefineProofs.
+
+Theorem arrow_same_lua fl tgt fuel_tc fuel req ast r :
+  restores fl = true -> wf_ast ast = true -> arrows_simple ast = true ->
+  resolve fl ast = Resolver.Ok r ->
+  pipeline fl tgt fuel_tc fuel req (dearrow ast) = pipeline fl tgt fuel_tc fuel req ast.
+Proof.
+  intros Hr Hw Ha R. unfold pipeline. rewrite R, (proj1 (resolve_arrow fl ast r Hr Hw Ha) R). reflexivity.
+Qed.
+
+Theorem arrow_accept_iff fl ast :
+  restores fl = true -> wf_ast ast = true -> arrows_simple ast = true ->
+  forall r, resolve fl ast = Resolver.Ok r <-> resolve fl (dearrow ast) = Resolver.Ok r.
+Proof. intros Hr Hw Ha r. apply resolve_arrow; assumption. Qed.
